@@ -14,7 +14,8 @@
     the before/after comparison of the correspondence run (flag 1 in the observation). *)
 From Coq Require Import ZArith List Bool Lia.
 From Low Require Import Lib.MachInt Lib.Bits Lib.BitSeq Model.BitmapJoin Model.LegacyBitmap Spec.JoinSpec
-  Proofs.JoinProofs Model.BitmapMask Spec.MaskSpec Model.BitmapGetw32 Spec.GetwSpec Proofs.GetwProofs.
+  Proofs.JoinProofs Model.BitmapMask Spec.MaskSpec Model.BitmapGetw32 Spec.GetwSpec Proofs.GetwProofs
+  Model.BitmapOf Model.BitmapSliceArray Spec.SliceArraySpec Proofs.SliceArrayProofs.
 Import ListNotations.
 Open Scope Z_scope.
 
@@ -109,6 +110,19 @@ Theorem C14_SplitJoin : forall bm w, width_ok w -> words_ok bm -> 64 * zlen bm <
 Proof. exact SplitJoin_id. Qed.
 Print Assumptions C14_SplitJoin.
 
+(** Slice seen through ToArray (what the repository's TestSlice observes): the set positions of the
+    slice are the set positions of the input inside [from, to), shifted down by [from].  Uses
+    [ToArray ws = Some (ones (flat ws))], proved here for the model of bitmap/toarray.go. *)
+Theorem C14_ToArray_ones : forall ws, words_ok ws -> ToArray ws = Some (ones (flat ws)).
+Proof. exact ToArray_ones. Qed.
+Print Assumptions C14_ToArray_ones.
+
+Theorem C14_Slice_ToArray : forall ws from to, words_ok ws -> 0 <= from <= to -> to <= 64 * zlen ws ->
+  SliceToArray ws from to =
+    Some (map (fun p => p - from) (filter (fun p => (from <=? p) && (p <? to)) (ones (flat ws)))).
+Proof. exact SliceToArray_correct. Qed.
+Print Assumptions C14_Slice_ToArray.
+
 (** The pre-fix Slice returned ((to-from)+63)&^63 WORDS: 128 for the 69-bit range [1,70). *)
 Theorem C14_slice_len_refuted :
   exists ws from to r, words_ok ws /\ 0 <= from <= to /\ to <= 64 * zlen ws /\
@@ -158,5 +172,7 @@ Example C14_widen_nonvacuous :
   Getw32 [0xa5; 7] (2^26) 64 = Some 0xa5 /\ spec_Getw_any [0xa5; 7] (2^26) 64 = None /\
   width_ok 16 /\ 64 * zlen [0xa5; 2^63 + 7] < 2^31 /\
   SplitJoin [0xa5; 2^63 + 7] 16 = Some [0xa5; 2^63 + 7] /\
-  elements [0xa5; 2^63 + 7] 16 = [0xa5; 0; 0; 0; 7; 0; 0; 0x8000].
+  elements [0xa5; 2^63 + 7] 16 = [0xa5; 0; 0; 0; 7; 0; 0; 0x8000] /\
+  SliceToArray [0xa5; 2^63 + 7] 2 67 = Some [0; 3; 5; 62; 63; 64] /\
+  ones (flat [0xa5; 2^63 + 7]) = [0; 2; 5; 7; 64; 65; 66; 127].
 Proof. vm_compute. intuition congruence. Qed.
